@@ -194,6 +194,8 @@ def follower_check(pid, tier, scratch, replay, plan):
             if r['universe'] is None:
                 raise Infra('generator %s printed no universe' % g['cfg'])
             hs = sorted(set(r['histories']))
+            if g.get('filter'):
+                hs = [h for h in hs if g['filter'](json.loads(h))]
             take = vlib.sample(hs, spec.get('sample', len(hs)), rnd)
             uni = dict(r['universe'])
             uni.update(g.get('universe_extra', {}))
@@ -345,6 +347,27 @@ PLAN_C10 = dict(
 )
 
 
+def one_task_at_a_time(h):
+    """offset worlds run the unscaled rescan batches below the modelled chain silently right after the
+    Import call, which is only possible while no other background task is queued"""
+    pending = 0
+    for s in h:
+        if s['a'] in ('Import', 'Remove'):
+            if pending:
+                return False
+            pending += 1
+        elif s['a'] == 'ImportStep' and s.get('done'):
+            pending -= 1
+        elif s['a'] == 'RemoveStep':
+            pending -= 1
+    return True
+
+
+# a chain of 2005 stranger-only blocks below the modelled part: Start's fast-forward (no ready wallet, more than
+# 2000 blocks behind), catch-up over thousands of blocks, rescans in the code's own 1000-height batches
+OFFSET = {'offset': 2005}
+
+
 def plan_check(plan):
     return lambda pid, tier, scratch, replay: follower_check(pid, tier, scratch, replay, plan)
 
@@ -395,8 +418,12 @@ PLAN_C07 = dict(
                         SIM(6000, 20, **dict(IMPORT_ONLY, GenWant='"import-reorg"', ImportBatch='2'))]),
           gen('Gen_Stake.cfg', 'MC_Stake.tla', universe_extra=STAKE_X,
               quick=[SIM(60, 16, **IMPORT_ONLY)],
-              thorough=[SIM(1500, 18, **IMPORT_ONLY)])],
-    assume=['the rescan batch is shortened from 1000 heights to ImportBatch (2) by a verif-tagged hook so that multi-batch imports happen on short chains',
+              thorough=[SIM(1500, 18, **IMPORT_ONLY)]),
+          gen('Gen_Imp.cfg', 'MC_Imp.tla', universe_extra=OFFSET, filter=one_task_at_a_time,
+              quick=[dict(SIM(20, 14, **dict(IMPORT_ONLY, InitAbsent='{"w1", "w2"}')), sample=12), dict(SIM(12, 14, **IMPORT_ONLY), sample=8)],
+              thorough=[dict(SIM(300, 16, **dict(IMPORT_ONLY, InitAbsent='{"w1", "w2"}')), sample=160), dict(SIM(150, 16, **IMPORT_ONLY), sample=80)])],
+    assume=['offset worlds: 2005 stranger-only blocks lie below the modelled chain (abstract height h = concrete height 2005 + h), so that Start fast-forwards when no wallet is ready and rescans run the code\'s own 1000-height batches first; histories in which an import is requested while another background task is queued are not replayed there',
+            'the rescan batch is shortened from 1000 heights to ImportBatch (2) by a verif-tagged hook so that multi-batch imports happen on short chains',
             'behaviours on which the model mispredicts whether a batch completed the import (rescan racing with an unprocessed reorganisation) give no verdict; they are counted under replays_failed_for_infrastructure'],
 )
 PLAN_C08 = dict(
